@@ -22,10 +22,13 @@ def run(ctx):
     ctx.assumptions += [
         "stream_concat-style equality of the character streams needs RangesOnCharBoundaries (witness: known finding char-splitting-range-boundary)",
         "tree-shape equality is judged on real outputs; for erroneous parses it fails genuinely (known finding error-recovery)",
+        "tree_shape_concat / driver_concat (TreeLevel.lean) are corollaries for DETERMINISTIC parsing whose only access to the text is the "
+        "observation sequence (no GLR, no error recovery, no external scanner, no get_column): that the real parser is such a function is a modelling claim, not proved",
         "external scanners that ask for range boundaries/columns are not part of the equality claim",
     ]
     ctx.regen()
-    ctx.prove(["TsVerif.C13.Props"], "TsVerif/C13/Audit.lean")
+    ctx.extra_lean_dirs = ["C09", "C01"]   # C13 imports C09's decoder model; TreeLevel.lean imports C01's LR machine (Skel.lean)
+    ctx.prove(["TsVerif.C13.Props", "TsVerif.C13.TreeLevel"], "TsVerif/C13/Audit.lean")
     driver = ctx.build_driver("tsv-c13")
     explorer = ctx.cargo_bin("c13")
     cunit = ctx.cunit("cunit_c13")
